@@ -585,13 +585,17 @@ fn run_unit(d: &Datum, u: &Unit, budget: usize, max_leaves: u64, inject_ks: &[us
 	match cfw::inspect(d, u.codec, &rf.bytes) {
 		Ok(i) if i.block_counts.len() >= 3 => {}
 		Ok(i) => {
-			eprintln!("MACHINERY: C16 {}: the reference history writes {} blocks, at least 3 intended", u.label(), i.block_counts.len());
-			std::process::exit(2);
+			// What the writer puts into an all-accepting sink is C15's business; here it only means
+			// that this unit cannot be evaluated. Reported as a cap (the run is then not called
+			// exhaustive); `run` turns it into a machinery error when no unit at all is evaluable.
+			cover.caps.push(format!("{}: not evaluated, the reference history writes {} blocks where at least 3 were intended (the Vec<u8> run is C15's subject)", u.label(), i.block_counts.len()));
+			cover.count("units_not_evaluable", 1);
+			return (cover, out);
 		}
 		Err(e) => {
-			// C15's business; here it only means the unit cannot be evaluated
-			eprintln!("MACHINERY: C16 {}: the Vec<u8> run does not produce a valid file: {e}", u.label());
-			std::process::exit(2);
+			cover.caps.push(format!("{}: not evaluated, the Vec<u8> run does not produce a valid file: {e} (C15's subject)", u.label()));
+			cover.count("units_not_evaluable", 1);
+			return (cover, out);
 		}
 	}
 	let horizon = horizon_for(rf.bytes.len());
@@ -722,6 +726,11 @@ pub fn run(rep: &mut Report) {
 		rep.violations.extend(v);
 	}
 	rep.extra.insert("highest_completed_deviation_level".into(), json!(if rep.cover.caps.is_empty() { budget } else { 0 }));
+	let not_evaluable = rep.cover.counters.get("units_not_evaluable").copied().unwrap_or(0);
+	if not_evaluable as usize * 2 > us.len() {
+		eprintln!("MACHINERY: C16: {not_evaluable} of {} units cannot be evaluated (their reference run on a Vec<u8> does not give the intended file): nothing to compare with (see C15)", us.len());
+		std::process::exit(2);
+	}
 	// vacuity guards
 	let need = [
 		"short_write_inside_block_header_slice",
@@ -748,7 +757,9 @@ pub fn run(rep: &mut Report) {
 	];
 	rep.extra.insert("deviation_budget_null_deflate".into(), json!(budget + thorough as usize));
 	let unexplained = rep.violations.iter().any(|v| v.class != "failing-call-panicked");
-	if !unexplained {
+	// (units that could not be evaluated are already reported as caps: what they would have
+	// exercised is missing for a stated reason)
+	if !unexplained && not_evaluable == 0 {
 		for k in need {
 			if rep.cover.counters.get(k).copied().unwrap_or(0) == 0 {
 				eprintln!("MACHINERY: C16 vacuity guard: counter {k} is 0 — a behaviour the check relies on was never exercised");
